@@ -2,6 +2,7 @@ package main
 
 import (
 	"go/types"
+	"strings"
 
 	"golang.org/x/tools/go/ssa"
 )
@@ -33,4 +34,12 @@ func (x *Exec) specIfaceName(env *SpecEnv, xe Expr, t types.Type) string {
 func (x *Exec) isPureContract(fn *ssa.Function) bool {
 	ct := x.contractFor(fn)
 	return ct != nil && ct.Pure
+}
+
+// baseKey strips the "#case" suffix of an additional contract's key.
+func baseKey(k string) string {
+	if h := strings.LastIndex(k, "#"); h > 0 {
+		return k[:h]
+	}
+	return k
 }
